@@ -50,6 +50,7 @@ theorem intOfBits_bitsBE (w x : Nat) : intOfBits (bitsBE w x) = x % 2 ^ w := by
     rw [bitsBE_succ, intOfBits_append_singleton, ih, pow_succ, mul_comm (2 ^ w) 2, Nat.mod_mul,
       Nat.testBit_zero]
     rcases Nat.mod_two_eq_zero_or_one x with h | h <;> simp [h]
+    omega
 
 theorem intOfBits_bitsBE_of_lt (w x : Nat) (h : x < 2 ^ w) : intOfBits (bitsBE w x) = x := by
   rw [intOfBits_bitsBE, Nat.mod_eq_of_lt h]
@@ -66,7 +67,7 @@ theorem bitsBE_intOfBits (l : List Bool) : bitsBE l.length (intOfBits l) = l := 
   | nil => simp [bitsBE]
   | append_singleton l b ih =>
     rw [intOfBits_append_singleton, List.length_append, List.length_singleton, bitsBE_succ]
-    have h1 : (2 * intOfBits l + b.toNat) / 2 = intOfBits l := by cases b <;> simp; omega
+    have h1 : (2 * intOfBits l + b.toNat) / 2 = intOfBits l := by cases b <;> simp <;> omega
     have h2 : (2 * intOfBits l + b.toNat).testBit 0 = b := by
       rw [Nat.testBit_zero]; cases b <;> simp <;> omega
     rw [h1, h2, ih]
@@ -122,7 +123,7 @@ theorem removeE_mem (q : Nat) (l : List Nat) (hq : q ∈ l) : removeE q l = .ok 
         rcases List.mem_cons.mp hq with h | h
         · exact absurd h.symm hx
         · exact h
-      have hb : (x == q) = false := by simpa using hx
+      have hb : ¬ (x == q) = true := by simpa using hx
       simp [removeE, hx, ih hq', List.erase_cons_tail hb]
 
 theorem removeE_range (N q : Nat) (hq : q < N) : removeE q (List.range N) = .ok ((List.range N).erase q) :=
